@@ -120,4 +120,12 @@ example : (resolve contractMethods stubMethods "TransactionManager" "Begin").isS
     gated contractMethods ("TransactionManager", "Begin") = true ∧
     (resolve contractMethods stubMethods "InterchainManager" "PostInterchainEvent").isNone = true := by decide +kernel
 
+/-- the entry point through which the inter-broker contract hands an IBTP to the interchain contract asks for its caller
+(since the `fix:` commit "HandleIBTPData takes only the inter-broker contract's requests of this hub's own services"; before, any
+account could have an IBTP processed there without a proof check).  Re-checked against the regenerated method table. -/
+theorem C17_ibtp_data_entry_asks_for_its_caller :
+    contractMethods.any (fun m => m.contract == "InterchainManager" && m.name == "HandleIBTPData" && m.declared &&
+      m.guards.any (fun g => match g with | .other s => s == "x.CurrentCaller()" | .currentCaller => true | _ => false)) = true := by
+  decide +kernel
+
 end Bxh.Props.C17
